@@ -2,4 +2,5 @@ SPECIFICATION SlotSpec
 CONSTANTS
   MaxOps = 1
   OpSet = "core"
+  Atoms = "simple"
   Emit = TRUE
